@@ -282,7 +282,17 @@ pub fn record_run(case: &Value) -> Value {
     let ev2 = events.clone();
     let budget = case["budget"].as_u64().unwrap_or(400);
     let mut steps = 0u64;
-    rbpf::verif::set_step_hook(Some(Box::new(move |pc, reg, depth, _stack| {
+    // the 512 stack bytes as they are before the latest instruction; the last executed instruction
+    // of a run (exit, a refused access, the instruction the budget refused) changes no memory, so
+    // after the run this is the final stack
+    let last_stack: Rc<RefCell<Vec<u8>>> = Rc::new(RefCell::new(Vec::new()));
+    let ls2 = last_stack.clone();
+    rbpf::verif::set_step_hook(Some(Box::new(move |pc, reg, depth, stack| {
+        {
+            let mut ls = ls2.borrow_mut();
+            ls.clear();
+            ls.extend_from_slice(unsafe { std::slice::from_raw_parts(stack, 512) });
+        }
         steps += 1;
         if steps > budget {
             return false;
@@ -333,6 +343,7 @@ pub fn record_run(case: &Value) -> Value {
         end[engine] = r;
     }
     end["val"] = if obs["k"] == "ok" { obs["val"].clone() } else { word_json(0) };
+    end["stack"] = bytes_json(&last_stack.borrow());
     for f in ["class", "msg"] {
         if end[f].is_null() {
             end[f] = json!("");
